@@ -353,9 +353,13 @@ def step_jobs(prop, tier, checks=False, calls=1, pairs=None, ringcaps=(1,), seps
                         if uh is not None:
                             d["UHRET"] = "(%d)" % uh
                             name += ".h%s" % str(uh).replace("-", "m")
-                        jobs.append(Job(name.replace("s-1", "sE"), "s_step.c", d, unwind=2 * capc + 4,
-                                        unwindset=uws(capc + 1, strl=8, nvars=6, groups=2, m=3), checks=checks, timeout=900, samples=20000,
-                                        required_witness=["end-of-scenario"]))
+                        j = Job(name.replace("s-1", "sE"), "s_step.c", d, unwind=2 * capc + 4,
+                                unwindset=uws(capc + 1, strl=8, nvars=6, groups=2, m=3), checks=checks, timeout=900, samples=20000,
+                                required_witness=["end-of-scenario"])
+                        if checks and tier != "quick" and (vs == 4 or uvs == 4):
+                            # built-in checks + a 12-byte string formatter / parser: MiniSat > 900 s, CaDiCaL ~60 s (measured)
+                            j.solver, j.timeout = "cadical", 1800
+                        jobs.append(j)
     return with_prop(prop, jobs)
 
 
@@ -417,7 +421,7 @@ def c20(tier):
         m3 += [("AT+kaaaaaaLAT+kL", (12, 12)), ("AT+k=aLAT+k?L", (12, 16)), ("AT+k?LAT+k=aL", (12, 16)), ("AT+kgLAT+kL", (12, 16)), ("AT+k=?xLAT+kL", (12, 16)), ("AT+kaaaaaaaLAT+k=aL", (12, 12))]
     for sh, cap in m3:
         jobs.append(twin_job("C20", 3, sh, cap=cap))
-    for shape in ("ATnRL", "ATn?RL", "RATnL", "ATRnL", "ATn=aRL", "AgRL"):
+    for shape in ("ATnRL", "ATn?RL", "RATnL", "ARTnL", "ATRnL", "ATn=aRL", "AgRL"):
         jobs.append(shape_job("C20", shape, required_witness=["end-of-scenario", "a-result-code"]))
     # newline style of a multi-line answer: the command list after AT+A<LF> and AT+A<CR><LF>
     jl = list_job("C20", 20, 22, "m2.cap10to11")
